@@ -846,6 +846,9 @@ impl C04 {
 }
 
 impl Check for C04 {
+    fn fuzz_runs(&self) -> u64 {
+        60000
+    }
     fn id(&self) -> &'static str {
         "C04"
     }
